@@ -21,7 +21,7 @@ def main():
     for d in dirs:
         n = os.path.basename(d)
         if n in res: continue
-        r = subprocess.run(["/verif/tools/seedtest.py", d + "/patch.diff"], capture_output=True, text=True)
+        r = subprocess.run(["/verif/tools/seedtest.py", d + "/patch.diff"], capture_output=True, text=True)   # honours SEEDTEST_WT / SEEDTEST_EVIDENCE
         m = re.search(r"^SUMMARY (.*)$", r.stdout, re.M)
         if not m:
             print(n, "seedtest failed:", r.stdout[-300:], r.stderr[-300:]); continue
